@@ -32,7 +32,9 @@ class Impl:
     """The real objects: a chain of nested ScopingNodes (innermost first), detached tables and the
     list of symbol objects created so far (index = the model's sid)."""
 
-    def __init__(self, nslots):
+    def __init__(self, nslots, cb_names=None):
+        """cb_names: optional list (one entry per scope, innermost first) of names mentioned by a
+        CodeBlock (a WRITE statement) placed directly in that scope's Schedule"""
         from psyclone.psyir.nodes import IfBlock, Literal, Schedule
         from psyclone.psyir.symbols import BOOLEAN_TYPE
         top = Schedule()
@@ -44,6 +46,15 @@ class Impl:
             cur = ifb.if_body
             nodes.append(cur)
         self.nodes = nodes[::-1]
+        if cb_names:
+            from fparser.two import Fortran2003
+            from fparser.two.parser import ParserFactory
+            from psyclone.psyir.nodes import CodeBlock
+            ParserFactory().create(std="f2008")
+            for node, names in zip(self.nodes, cb_names):
+                if names:
+                    stmt = Fortran2003.Write_Stmt("write(*,*) " + ", ".join(names))
+                    node.addchild(CodeBlock([stmt], CodeBlock.Structure.STATEMENT), 0)
         self.det = []
         self.objs = []
         self.last_merge = None
@@ -480,7 +491,20 @@ def merge_reject_key(info, what, exc_text):
         cause = "skipped-import" if "skipped-import" in causes else (
             "skipped-container" if "skipped-container" in causes else "other")
         return "merge/container-pass/state-changed-before-raise:" + cause
-    return "merge/%s/state-changed-before-raise:%s" % (pas, exc)
+    key = "merge/%s/state-changed-before-raise:%s" % (pas, exc)
+    if pas == "add-pass" and exc == "SymbolError":
+        # which clash could not be resolved by renaming, and why
+        import re
+        from psyclone.psyir.symbols import IntrinsicSymbol
+        if "CodeBlock" in exc_text:
+            return key + ":codeblock"
+        m = re.search(r"Cannot rename [Ss]ymbol '([^']*)'", exc_text)
+        nm = m.group(1).lower() if m else None
+        a = [x for x in info["self_before"] if info["names_before"][id(x)].lower() == nm]
+        b = [x for x in info["other_before"] if info["names_before"][id(x)].lower() == nm]
+        both = a and b and isinstance(a[0], IntrinsicSymbol) and isinstance(b[0], IntrinsicSymbol)
+        return key + (":both-intrinsic" if both else ":other")
+    return key
 
 
 def changed_what(before, after):
@@ -496,10 +520,10 @@ def changed_what(before, after):
     return "classes"
 
 
-def run_history(ctx, nslots, ops, record=True):
+def run_history(ctx, nslots, ops, record=True, cb_names=None):
     """Run one history on the implementation.  Returns (steps, problems): steps = [(op, result,
     snapshot)], problems = [(step index, key, what)] from the direct evaluation of the property."""
-    impl = Impl(nslots)
+    impl = Impl(nslots, cb_names)
     steps, problems = [], []
     known_table_problems = set()
     for idx, op in enumerate(ops):
@@ -918,7 +942,7 @@ class Gen:
 
     def history(self):
         """Generate while executing (on a scratch Impl) so choices see the current state."""
-        impl = Impl(self.nslots)
+        impl = Impl(self.nslots, getattr(self, "cb_names", None))
         ops = []
         for _ in range(self.length):
             op = self.next_op(impl)
@@ -927,6 +951,25 @@ class Gen:
             impl.apply(op)
             ops.append(op)
         return ops
+
+
+def codeblock_histories():
+    """fixed histories over scopes with CodeBlocks: (nslots, names per scope, ops)"""
+    d = ("KData", False, ("IAuto",))
+    arg = ("KData", False, ("IArg",))
+    c = ("KContainer", False, ("IOther",))
+    # a clash that cannot be resolved: the local `x` is named in a CodeBlock, the other `x` is an argument;
+    # merge must be rejected by check_for_clashes, before `first` is added
+    yield (1, [["x"]], [("add", ("slot", 0), "x", d, ""), ("new_table",), ("add", ("det", 0), "first", d, ""),
+                        ("add", ("det", 0), "X", arg, ""), ("merge", ("slot", 0), 0, []), ("lookup", ("slot", 0), "first")])
+    # the same through the container pass: a local named in a CodeBlock clashes with a container
+    yield (2, [[], ["m"]], [("add", ("slot", 1), "m", d, ""), ("new_table",), ("add", ("det", 0), "k", c, ""),
+                            ("add", ("det", 0), "M", c, ""), ("merge", ("slot", 1), 0, []), ("lookup", ("slot", 1), "k")])
+    # rename refused (CodeBlock of an inner scope counts), then allowed for another symbol; resolvable clash
+    yield (2, [["a"], ["b"]], [("add", ("slot", 1), "a", d, ""), ("add", ("slot", 1), "b", d, ""), ("add", ("slot", 1), "c", d, ""),
+                               ("rename", ("slot", 1), 0, "z"), ("rename", ("slot", 1), 1, "z"), ("rename", ("slot", 1), 2, "z"),
+                               ("new_table",), ("add", ("det", 0), "A", d, ""), ("merge", ("slot", 1), 0, []),
+                               ("lookup", ("slot", 1), "a"), ("lookup", ("slot", 1), "a_1")])
 
 
 def op_sids(op):
@@ -1076,8 +1119,8 @@ def normalise_op(op):
     return tuple(op)
 
 
-def replay_text(nslots, ops, idx):
-    return {"nslots": nslots, "ops": [list(o) for o in ops[:idx + 1]],
+def replay_text(nslots, ops, idx, cbn=None):
+    return {"nslots": nslots, "ops": [list(o) for o in ops[:idx + 1]], "codeblock_names": cbn,
             "how": "props/C16/check.py: run_history(ctx, nslots, ops) executes these operations on real "
                    "SymbolTable objects attached to nested Schedules (slot 0 = innermost); "
                    "see Impl._apply for the mapping of each tuple to the SymbolTable method"}
@@ -1089,7 +1132,7 @@ def replay(ctx, path):
     w = json.loads(Path(path).read_text())
     w = w.get("witness", w)
     ops = [normalise_op(o) for o in witness_ops(w)]
-    steps, problems = run_history(ctx, w["nslots"], ops)
+    steps, problems = run_history(ctx, w["nslots"], ops, cb_names=w.get("codeblock_names"))
     for i, (op, res, _) in enumerate(steps):
         print("%2d %s -> %s" % (i, op, res))
     print("final state:", steps[-1][2] if steps else None)
@@ -1188,7 +1231,7 @@ def run(ctx):
         cases.append(c_case(nslots, steps))
         per_case.append((nslots, ops, steps))
         for p in problems:
-            all_problems.append((nslots, ops, p))
+            all_problems.append((nslots, ops, p, None))
     ctx.sample({"nslots": histories[0][0], "ops": [list(o) for o in histories[0][1]],
                 "impl_results": [r[:2] for _, r, _ in per_case[0][2]]})
     ctx.sample({"nslots": histories[-1][0], "ops": [list(o) for o in histories[-1][1]],
@@ -1196,14 +1239,37 @@ def run(ctx):
 
     ctx.log("ran %d histories (%d operations) on the implementation" % (len(histories), ctx.cov["evaluations"]))
 
+    # 2b. scopes whose trees contain CodeBlocks naming some of the symbols: rename_symbol and the
+    # clash resolution of merge must refuse to rename those.  The Coq model has no CodeBlocks, so
+    # these histories are only evaluated directly (rejected => unchanged, unique names, merge ...).
+    cb_hist = list(codeblock_histories())
+    for i in range(ctx.pick(120, 2500)):
+        r2 = ctx.rng("cb%d" % i)
+        nslots = r2.choice([1, 2, 2, 3])
+        g = Gen(r2, nslots, r2.randint(5, ctx.pick(14, 20)), r2.choice(["merge", "merge", "mixed", "refs"]))
+        pool = ["a", "A", "b", "x", "X", "ab", "sin", "m", "a_1", "b_1", "x_1"]
+        g.cb_names = [r2.sample(pool, r2.choice([0, 1, 2, 3])) for _ in range(nslots)]
+        cb_hist.append((nslots, g.cb_names, g.history()))
+    n_cb_ops = 0
+    for nslots, cbn, ops in cb_hist:
+        ops = [normalise_op(o) for o in ops]
+        steps, problems = run_history(ctx, nslots, ops, cb_names=cbn)
+        n_cb_ops += len(steps)
+        for (op, res, _) in steps:
+            ctx.hist("codeblock_histories", "%s -> %s" % (op[0], res[0] if res[0] != "err" else res[1]))
+            ctx.count(("cb", nslots, cbn, ops), op[0] in ("merge", "rename"))
+        for idx, key, what in problems:
+            all_problems.append((nslots, ops, (idx, key, what + " [scopes with CodeBlocks naming %s]" % (cbn,)), cbn))
+    ctx.log("ran %d histories (%d operations) over scopes containing CodeBlocks" % (len(cb_hist), n_cb_ops))
+
     # 3. the property evaluated directly on the implementation
     seen = set()
-    for nslots, ops, (idx, key, what) in all_problems:
+    for nslots, ops, (idx, key, what), cbn in all_problems:
         ctx.hist("property_failures_on_impl", key)
         if key in seen:
             continue
         seen.add(key)
-        ctx.finding(key, what, replay_text(nslots, ops, idx))
+        ctx.finding(key, what, replay_text(nslots, ops, idx, cbn))
 
     # 4. model = implementation
     header = HEADER + "\n" + POOL.header()
